@@ -219,7 +219,8 @@ def e2e_scenarios(tier, rng):
 
     def add(lbest, rbest, fork, full=False, rate=0.0, mf=0, chunk=10, hashreq=50, tasks=3, pend=4, peers=3):
         S.append(dict(id="e%d" % len(S), lbest=lbest, rbest=rbest, fork=fork, target=rbest, npeers=peers, chunk=chunk, hashreq=hashreq,
-                      maxtasks=tasks, maxpend=pend, full=full, fault_rate=rate, max_faults=mf, seed=rng.randrange(1 << 30)))
+                      maxtasks=tasks, maxpend=pend, full=full, fault_rate=rate, max_faults=mf, seed=rng.randrange(1 << 30),
+                      remote_knows_local=(len(S) % 2 == 0)))
     # anchors reach the genesis block; forks between anchors; faulty peers
     add(rng.randrange(20, 60), rng.randrange(70, 110), rng.randrange(0, 20), rate=0.15, mf=8, chunk=4, hashreq=10)
     # more than 32 anchors: last anchor > 0; fork below it => honest "no ancestor" and full scan
@@ -252,6 +253,9 @@ def run_e2e(c, scenarios):
     r = c.absorb_go(outpath, output)
     if rc != 0 and not r.get("violations"):
         raise vlib.Infra("e2e harness failed:\n" + output[-3000:])
+    if (r.get("extra") or {}).get("divergences") and not r.get("violations"):
+        raise vlib.Infra("e2e: the chain service's anchors differ from Syncer.tla's Anchors (Skip 16, MaxAnchors 32):\n%s"
+                         % "\n".join(n for n in (r.get("notes") or []) if n.startswith("DIVERGENCE"))[:2000])
     return r
 
 
